@@ -231,6 +231,75 @@ def queued_local_events(ck, seed, si, ei):
         ck.violation(f'loop-terminated-or-spinning:{type(rec.exc).__name__}:local-events-queued-while-waiting-in-{waiting}', {'endpoint': who, 'exc': repr(rec.exc)[:200], 'queued': queued}, sim.case)
 
 
+OVERDUE = ('rekey_ike', 'dpd', 'delete_ike', 'rekey_ike+dpd', 'everything-after-a-long-sleep', 'retransmission')
+WAKERS = ('acquire', 'expire_soft', 'expire_hard', 'peer-probe', 'junk-datagram', 'acquire+expire_soft')
+
+
+def overdue_deadline_and_event(ck, seed, di, ei):
+    """A deadline has passed (the rekey of the IKE_SA, the DPD probe, the hard lifetime, a retransmission; all of them at once after the process was suspended for minutes) and
+    the turn that finds out is NOT woken by the clock but by a kernel event or a datagram, which is served first. The turn comes back to select(); so do the following ones."""
+    from vf import walk
+    due, waker = OVERDUE[di], WAKERS[ei]
+    sc = walk.Scenario(seed, [], dict(dpd=60, lifetime=200), n_children=2)
+    sim = sc.sim
+    sim.case.update({'family': 'overdue-deadline-and-event', 'overdue': due, 'turn_woken_by': waker})
+    if not sc.ok:
+        return
+    died = []
+    sim.monitors.append(lambda s_, ep, rec: died.append((ep.name, rec)) if rec.died else None)
+    ike = next((x for x in sc.a.ctl.ike_sas if x.state.name == 'ESTABLISHED'), None)
+    if ike is None:
+        return
+    t = sim.clock.t
+    if due == 'retransmission':
+        sc.trigger('A', 'dpd')
+        sim.net.clear()
+        sim.clock.advance(7.0)
+    elif due == 'everything-after-a-long-sleep':
+        sim.clock.advance(400.0)                    # nobody ran in the meantime: every timer of both daemons is overdue, some by several periods
+    else:
+        if 'rekey_ike' in due:
+            ike.rekey_ike_sa_at = t - 0.5
+        if 'dpd' in due:
+            ike.start_dpd_at = t - 0.5
+        if due == 'delete_ike':
+            ike.delete_ike_sa_at = t - 0.5
+    kids = [c for (sa_, c) in sc.shared_children('A')]
+    for ev in waker.split('+'):
+        if died:
+            break
+        if ev == 'acquire':
+            sc.acq_port += 1
+            sim.acquire(sc.a, 0, sport=sc.acq_port) if list(sc.a.conf.ike_configurations.values())[0].protect[0].my_ts.get_port() == 0 else sim.acquire(sc.a, 0, dport=sc.acq_port)
+        elif ev.startswith('expire') and kids:
+            sim.expire(sc.a, bytes(kids[0].inbound_spi), ev == 'expire_hard', daddr=str(sc.a.addrs[0]))
+        elif ev == 'peer-probe':
+            pb = next((x for x in sc.b.ctl.ike_sas if x.state.name == 'ESTABLISHED'), None)
+            if pb is not None:
+                pb.start_dpd_at = sim.clock.t - 1
+                sim.forced_dpd = True
+                sc.b.step('tick')
+                for d in [x for x in sim.net if x.dst == str(sc.a.addrs[0])][:1]:
+                    sim.net.remove(d)
+                    sim.inject(sc.a, d.src, d.dst, d.data)
+        elif ev == 'junk-datagram':
+            sim.inject(sc.a, '198.51.100.77', str(sc.a.addrs[0]), bytes(8) + b'\x22' * 8 + bytes([46, 0x20, 37, 0x08]) + (3).to_bytes(4, 'big') + (28).to_bytes(4, 'big'))
+    ck.count('overdue.runs')
+    ck.seen('overdue.kinds', (due, waker))
+    ck.nontrivial(('overdue', due, waker))
+    for _ in range(10):
+        if died:
+            break
+        sim.drain()
+        sim.tick_all(1.0)
+    if died:
+        who, rec = died[0]
+        ck.violation(f'loop-terminated-or-spinning:{type(rec.exc).__name__}:event-served-in-the-turn-in-which-a-deadline-was-overdue:{due}',
+                     {'endpoint': who, 'exc': repr(rec.exc)[:200], 'woken_by': waker}, sim.case)
+        return
+    ck.count('overdue.turns_came_back')
+
+
 def run(ck):
     mon = linemon.LineMon()
     mon.start()
@@ -793,6 +862,13 @@ def run(ck):
                 n += 1
                 if ck.mine(n):
                     queued_local_events(ck, base + 4100 + 97 * rep + n, si, ei)
+    # ---- a deadline is overdue and the turn is woken by an event instead of the clock
+    for rep in range(1 if not ck.thorough() else 12):
+        for di in range(len(OVERDUE)):
+            for ei in range(len(WAKERS)):
+                n += 1
+                if ck.mine(n):
+                    overdue_deadline_and_event(ck, base + 5200 + 89 * rep + n, di, ei)
     # ---- transmissions towards ONE peer fail persistently (its link is down, a queue that never drains): every kind of errno, while that peer is in the
     # middle of a handshake / an exchange. The loop must keep coming back to select() and serve the other peer (replies and timers)
     for ei, err in enumerate([105, 11, 101, 113, 1, 90, 12, 'gaierror', 'no-errno']):            # ENOBUFS EAGAIN ENETUNREACH EHOSTUNREACH EPERM EMSGSIZE ENOMEM, then errors without a usual errno
@@ -1046,6 +1122,7 @@ def verdict(ck):
     ck.floor('timers of the other peer that fell due and were served while every retransmission towards the first peer failed', c['persistent_send_failure.timers_of_the_other_peer_served'], 6)
     ck.floor('kernel events queued while a request of the daemon was in flight (state x events)', len(ck.sets['queued_events.state_x_events']), 24)
     ck.floor('... after which a probe of the peer was answered', c['queued_events.peer_probe_answered_afterwards'], 20)
+    ck.floor('turns woken by an event while a deadline was overdue (deadline x event)', len(ck.sets['overdue.kinds']), 30)
     ck.floor('IKE_AUTH requests with unusual identities after which the other peer was served', c['unusual_identity.other_peer_served'], 80)
     ck.floor('histories cut at a delivery after which the other peer was still probed on time', c['vanish.other_peer_probed_on_time'], 80)
     ck.floor('states in which the vanished peer left its IKE_SAs at the hub', len(ck.sets['vanish.states_of_the_vanished_peers_ike_sas']), 5)
